@@ -99,11 +99,11 @@ def cases(ctx):
             yield {'kind': 'r2n', 'r': gen.random_regexp(rng, rng.randint(2, 10), Sg)}
         else:
             gen.random_regexp(rng, rng.randint(2, 10), Sg)
-    for n, Sg in ((1, ['a']), (2, ['a']), (2, ['a', 'b'])):
+    for n, Sg in ((1, ['a']), (2, ['a']), (2, ['a', 'b']), (1, ['0', '1']), (2, ['1'])):
         for s in gen.exhaustive_dfas(n, Sg):
             yield {'kind': 'd2r', 'D': s}
     for i in range(250 if not thorough else 3000):
-        s = gen.random_dfa(rng, 5, rng.choice([['a', 'b'], ['a'], ['a', 'b', 'c']]))
+        s = gen.random_dfa(rng, 5, rng.choice([['a', 'b'], ['a'], ['a', 'b', 'c'], ['0', '1']]))
         if not thorough or ctx.mine(i):
             yield {'kind': 'd2r', 'D': s}
 
